@@ -21,7 +21,7 @@ func (c14) Size(tier string) Size {
 	return Size{Batches: 16, Cases: 4000}
 }
 func (c14) Rule() string {
-	return "case = history of 1-60 calls of AddType/RemoveType/AddAttr/RemoveAttr/AddRel/RemoveRel/AddTwoWayRel over 4 type names and 4 field names plus empty and unknown names, valid and invalid attribute kinds (0,15,99,-1 with and without nullable), removal of first/middle/last type, two-way relationships in both directions and within one type; after EVERY call a snapshot of Types + HasType/GetType for every pool name is compared with a reference model (ordered list of name -> attrs, rels) stepped with the same call. Names that differ by surrounding white space or letter case ('a ', ' a', 'A') are different names. Non-trivial = history with >= 1 successful and >= 1 failing call and >= 2 types alive at some point; distinct = hash of the call list."
+	return "case = history of 1-60 calls of AddType/RemoveType/AddAttr/RemoveAttr/AddRel/RemoveRel/AddTwoWayRel over 4 type names and 4 field names plus empty and unknown names, valid and invalid attribute kinds (0,15,99,-1,255,256 and numbers that equal a valid kind modulo 256, 2^16 or 2^32, with and without nullable), removal of first/middle/last type, two-way relationships in both directions and within one type; after EVERY call a snapshot of Types + HasType/GetType for every pool name is compared with a reference model (ordered list of name -> attrs, rels) stepped with the same call. Names that differ by surrounding white space or letter case ('a ', ' a', 'A') are different names. Non-trivial = history with >= 1 successful and >= 1 failing call and >= 2 types alive at some point; distinct = hash of the call list."
 }
 func (c14) Assumptions() []string {
 	return []string{"nil and empty field maps are the same state (indistinguishable through the editing API's purpose); types handed to AddType are empty or carry well-formed fields",
@@ -174,7 +174,7 @@ func (m c14) genOp(r *RNG) c14op {
 	}
 	kind := func() int {
 		if r.Chance(1, 5) {
-			return []int{0, 15, 99, -1}[r.Intn(4)]
+			return []int{0, 15, 99, -1, 257, 270, 524, -254, -242, 65550, 4294967297, 255, 256}[r.Intn(13)] // round 15: kinds that equal a valid one modulo 256 / 2^16 / 2^32
 		}
 		return allKinds[r.Intn(len(allKinds))]
 	}
